@@ -49,8 +49,8 @@ Definition ex_body_f (a : pargs) (k : pkwargs) : prog value :=
   | _ => r <- trigger (Call "f" [VInt 0] []) ;; lift_res r
   end.
 Definition ex_tab (f : fid) : option fdef :=
-  if String.eqb f "f" then Some {| f_kind := KSync; f_wrapper := RunSync.run 5 ex_c; f_body := ex_body_f; f_accepts := fun _ _ => true |}
-  else if String.eqb f "g" then Some {| f_kind := KSync; f_wrapper := fun a k => call_func "g" a k; f_body := fun _ _ => Raise (mk_exn KeyErrorC []); f_accepts := fun _ _ => true |}
+  if String.eqb f "f" then Some {| f_kind := KSync; f_wrapper := RunSync.run 5 ex_c; f_body := ex_body_f; f_accepts := fun _ _ => true; f_binds := fun _ _ => true |}
+  else if String.eqb f "g" then Some {| f_kind := KSync; f_wrapper := fun a k => call_func "g" a k; f_body := fun _ _ => Raise (mk_exn KeyErrorC []); f_accepts := fun _ _ => true; f_binds := fun _ _ => true |}
   else None.
 Lemma lift_ok (r : value + exn) : user_ok (lift_res r).
 Proof. destruct r; constructor. Qed.
